@@ -20,7 +20,7 @@ T = 'yui_matrix::sparse::trans::Trans::<R>::'
 
 
 def sk(t):
-    return re.sub(r'#\d+\.\d+', '', show(t, -1000))
+    return re.sub(r'#(?:i\d+:)?\d+\.\d+', '', show(t, -1000))
 
 
 class Bad(Exception):
@@ -74,15 +74,15 @@ def loop_word(facts, b, n=3):
         for e in p.calls():
             nm = e.name.split('::')[-1]
             if nm == 'into_iter' and e.args:
-                src = re.sub(r'#\d+\.\d+', '', show(e.args[0], -1000)).replace('&', '').replace('*', '')
+                src = re.sub(r'#(?:i\d+:)?\d+\.\d+', '', show(e.args[0], -1000)).replace('&', '').replace('*', '')
             if nm == 'mul' and len(e.args) == 2 and p.end == 'backedge':
                 a = [strip(x) for x in e.args]
-                kinds = ['acc' if x[0] == 'loopvar' else ('x' if re.sub(r'#\d+\.\d+', '', show(x, -1000)).replace('&mut _', 'IT').startswith('next(') else '?') for x in a]
+                kinds = ['acc' if x[0] == 'loopvar' else ('x' if re.sub(r'#(?:i\d+:)?\d+\.\d+', '', show(x, -1000)).replace('&mut _', 'IT').startswith('next(') else '?') for x in a]
                 if sorted(kinds) == ['acc', 'x']:
                     step = 'acc*x' if kinds[0] == 'acc' else 'x*acc'
                     acc_local = a[kinds.index('acc')][2]
             if nm in ('id', 'clone') and e.args is not None and p.end in ('return', 'backedge') and init is None and nm == 'id':
-                init = re.sub(r'#\d+\.\d+', '', show(('call', e.name, e.args, e.site), -1000))
+                init = re.sub(r'#(?:i\d+:)?\d+\.\d+', '', show(('call', e.name, e.args, e.site), -1000))
         if p.end == 'return' and p.ret and p.ret[0] == 'loopvar' and acc_local is None:
             acc_local = p.ret[2]
     if src is None or step is None:
